@@ -1,28 +1,28 @@
-(* Model of rdflib/plugins/sparql/update.py over a dataset = quad set + set of
-   graph names the store knows (Memory.__all_contexts), cid 0 = the default
-   graph of the front end.  Statement by statement for evalInsertData,
-   evalDeleteData, evalDeleteWhere, evalModify (as repaired by the fix of F5:
-   all deletions of all solutions, then all insertions), evalClear, evalDrop,
-   evalAdd, evalMove, evalCopy, _graphAll, _graphOrDefault, _fillTemplate and
-   the loop of evalUpdate (first failure aborts, SILENT swallows).  The WHERE
-   clause of an operation enters as its solution list (a field of the
-   operation).  No proofs in this file. *)
+(* Model of rdflib/plugins/sparql/update.py (as repaired by the "fix:" commits
+   for F5, F10a, F10b, F10c, F10d, F10e, F10g, F10h) over a dataset = quad set
+   + set of graph names the store knows (Memory.__all_contexts), cid 0 = the
+   default graph of the front end.  Statement by statement for evalInsertData,
+   evalDeleteData, evalDeleteWhere (over list(res)), evalModify (all deletions
+   of all solutions, then all insertions; _legal; one bnodeMap per solution;
+   unbound graph names skipped), evalClear, evalDrop (plain Graph: evalClear),
+   evalAdd, evalMove, evalCopy, _defaultGraph, _graphAll, _graphOrDefault,
+   _fillTemplate and the loop of evalUpdate (first failure aborts, SILENT
+   swallows).  The WHERE clause of an operation enters as its solution list
+   (a field of the operation).  No proofs in this file. *)
 From RV Require Export Base.Quads.
 Local Open Scope N_scope.
 
 (* ------------------------------------------------------------------ *)
-(* Front ends and the object that ctx.graph is                          *)
+(* Front ends                                                           *)
 
 Inductive fe :=
 | FGraph (k : cid)   (* a plain Graph named k over the shared store: ctx.dataset raises *)
 | FCG                (* ConjunctiveGraph *)
 | FDS.               (* Dataset *)
 
-(* a graph object an evaluator holds: a context graph of the store, or the
-   ConjunctiveGraph/Dataset object itself (ctx.graph when
-   SPARQL_DEFAULT_GRAPH_UNION is on) *)
-Inductive gref := GCtx (c : cid) | GSelf.
-
+(* e_union = SPARQL_DEFAULT_GRAPH_UNION: it decides what WHERE reads outside
+   GRAPH (i.e. the solution lists, which are inputs here); since the repair
+   of F10a/F10b no evaluator's write depends on it *)
 Record env := { e_fe : fe; e_union : bool;
                 e_lits : list term;      (* term ids that are literals *)
                 e_bnodes : list term }.  (* term ids (< 1000) that are blank nodes *)
@@ -37,12 +37,10 @@ Definition bind (r : res) (f : dstate -> res) : res :=
 Definition has_dataset (e : env) : bool :=
   match e_fe e with FGraph _ => false | _ => true end.
 
-(* QueryContext.__init__ *)
-Definition ctx_graph (e : env) : gref :=
-  match e_fe e with
-  | FGraph k => GCtx k
-  | _ => if e_union e then GSelf else GCtx 0
-  end.
+(* _defaultGraph(ctx): ctx.graph when it is exactly a Graph (plain Graph front
+   end; default context when the switch is off), else dataset.default_context:
+   in every case the real default graph of the front end *)
+Definition dflt (e : env) : cid := match e_fe e with FGraph k => k | _ => 0 end.
 
 (* ------------------------------------------------------------------ *)
 (* Store primitives (Memory.add / remove / remove_graph through Graph)  *)
@@ -50,87 +48,30 @@ Definition ctx_graph (e : env) : gref :=
 Definition add_quad (q : quad) (s : dstate) : dstate :=
   {| quads := q_add q (quads s); known := sadd N.eqb (snd q) (known s) |}.
 
+(* g += ts for a context graph (Graph.__iadd__ -> addN -> store.add) *)
 Definition add_triples (c : cid) (ts : list triple) (s : dstate) : dstate :=
   fold_left (fun s t => add_quad (t, c) s) ts s.
 
-Definition ctxopt (g : gref) : option cid :=
-  match g with GCtx c => Some c | GSelf => None end.
-
-(* Graph.remove(t) / ConjunctiveGraph.remove(t): a triple given to the
-   ConjunctiveGraph/Dataset object is removed from every context *)
-Definition del1 (g : gref) (t : triple) (s : dstate) : dstate :=
-  {| quads := q_remove (pat_of t) (ctxopt g) (quads s); known := known s |}.
+(* Graph.remove(t) on a context graph *)
+Definition del1 (c : cid) (t : triple) (s : dstate) : dstate :=
+  {| quads := q_remove (pat_of t) (Some c) (quads s); known := known s |}.
 
 (* g -= ts  (Graph.__isub__) *)
-Definition g_isub (g : gref) (ts : list triple) (s : dstate) : dstate :=
-  fold_left (fun s t => del1 g t s) ts s.
+Definition g_isub (c : cid) (ts : list triple) (s : dstate) : dstate :=
+  fold_left (fun s t => del1 c t s) ts s.
 
 (* g.remove((None, None, None)) *)
-Definition g_clear (g : gref) (s : dstate) : dstate :=
-  {| quads := q_remove (None, None, None) (ctxopt g) (quads s); known := known s |}.
+Definition g_clear (c : cid) (s : dstate) : dstate :=
+  {| quads := q_remove (None, None, None) (Some c) (quads s); known := known s |}.
 
-(* g += ts for a list of triples: Graph.__iadd__ -> addN; ConjunctiveGraph
-   adds to its default context; Dataset.__iadd__ unpacks 4-tuples and raises
-   ValueError on the first triple *)
-Definition g_iadd (e : env) (g : gref) (ts : list triple) (s : dstate) : res :=
-  match g with
-  | GCtx c => Ok (add_triples c ts s)
-  | GSelf =>
-      match e_fe e with
-      | FDS => match ts with [] => Ok s | _ => Raise s end
-      | _ => Ok (add_triples 0 ts s)
-      end
-  end.
+(* dst += src for two context graphs: the triples of src are a snapshot *)
+Definition g_iadd_from (dst src : cid) (s : dstate) : dstate :=
+  add_triples dst (q_triples (None, None, None) src (quads s)) s.
 
-(* iterating a graph object: a context graph yields its triples, the
-   ConjunctiveGraph yields the union, the Dataset yields quads (None) *)
-Definition g_iter (e : env) (g : gref) (s : dstate) : option (list triple) :=
-  match g with
-  | GCtx c => Some (q_triples (None, None, None) c (quads s))
-  | GSelf =>
-      match e_fe e with
-      | FDS => None
-      | _ => Some (dedup triple_eqb (map fst (quads s)))
-      end
-  end.
-
-(* dst += src for two graph objects *)
-Definition g_iadd_from (e : env) (dst src : gref) (s : dstate) : res :=
-  match g_iter e src s with
-  | Some ts => g_iadd e dst ts s
-  | None => match quads s with [] => Ok s | _ => Raise s end
-  end.
-
-(* store.remove_graph(g): the Dataset object's own identifier is a private
-   blank node, so nothing is removed for it *)
+(* store.remove_graph(g) *)
 Definition forget (c : cid) (s : dstate) : dstate :=
   {| quads := quads s; known := srem N.eqb c (known s) |}.
-
-Definition remove_graph (e : env) (g : gref) (s : dstate) : dstate :=
-  match g with
-  | GCtx c => forget c (g_clear (GCtx c) s)
-  | GSelf =>
-      match e_fe e with
-      | FDS => s
-      | _ => forget 0 (g_clear (GCtx 0) s)
-      end
-  end.
-
-(* g.identifier; None = the Dataset object's private blank node *)
-Definition ident (e : env) (g : gref) : option cid :=
-  match g with
-  | GCtx c => Some c
-  | GSelf => match e_fe e with FDS => None | _ => Some 0 end
-  end.
-
-Definition same_ident (e : env) (a b : gref) : bool :=
-  match a, b with
-  | GSelf, GSelf => true
-  | _, _ => match ident e a, ident e b with
-            | Some x, Some y => N.eqb x y
-            | _, _ => false
-            end
-  end.
+Definition remove_graph (c : cid) (s : dstate) : dstate := forget c (g_clear c s).
 
 (* ctx.dataset.contexts(): Dataset.contexts appends the default graph *)
 Definition contexts (e : env) (s : dstate) : list cid :=
@@ -165,7 +106,7 @@ Inductive uop :=
 | Copy (silent : bool) (src dst : gd).
 
 (* ------------------------------------------------------------------ *)
-(* _fillTemplate                                                        *)
+(* _fillTemplate, _legal                                                *)
 
 Definition lookup (v : N) (mu : sol) : option term :=
   match find (fun p => N.eqb (fst p) v) mu with Some p => Some (snd p) | None => None end.
@@ -188,54 +129,57 @@ Definition fill (fr : N -> term) (mu : sol) (ts : list tpat) : list triple :=
   flat_map (fun tp => match inst_tpat fr mu tp with Some t => [t] | None => [] end) ts.
 
 (* the explicit supply of fresh blank nodes: one name per (operation index,
-   solution index, template block, template label); BNode() in the code *)
+   solution index, template label) - evalModify's bnodeMap lives for one
+   solution and is shared by all blocks of the INSERT template; BNode() *)
 Definition FRESH : N := 1000.
-Definition fresh (k i j x : N) : term :=
-  FRESH + k * 16777216 + i * 65536 + j * 256 + x.
+Definition fresh (k i x : N) : term := FRESH + k * 16777216 + i * 65536 + x.
+
+Definition is_lit (e : env) (t : term) : bool := memb N.eqb t (e_lits e).
+Definition is_bn (e : env) (t : term) : bool := memb N.eqb t (e_bnodes e) || (FRESH <=? t).
+(* _legal: subject an IRI or blank node, predicate an IRI *)
+Definition legal (e : env) (t : triple) : bool :=
+  let '(s, p, _) := t in
+  negb (is_lit e s) && negb (is_lit e p) && negb (is_bn e p).
 
 Fixpoint enum_from {A} (n : N) (l : list A) : list (N * A) :=
   match l with [] => [] | x :: r => (n, x) :: enum_from (N.succ n) r end.
 
-(* blocks of a template: the triples outside GRAPH (block 0), then the GRAPH
-   blocks in dictionary order *)
+(* blocks of a template: the triples outside GRAPH, then the GRAPH blocks in
+   dictionary order *)
 Definition blocks (tm : tmpl) : list (option gterm * list tpat) :=
   (None, t_triples tm) :: map (fun p => (Some (fst p), snd p)) (t_quads tm).
 
 (* graph names travel in solutions as term ids 100 + cid *)
 Definition GBASE : N := 100.
 Definition cid_of_term (v : term) : cid := v - GBASE.
-(* ctx.dataset.get_context(None) mints a graph named by a new blank node; the
-   harness maps every unknown graph name to this id *)
-Definition FRESHG : cid := 900.
 
-(* the graph a template block writes to; None = nothing can happen there:
-   removing from the graph that get_context(None) has just minted *)
-Definition m_target (ins : bool) (dg : cid) (mu : sol) (g : option gterm) : option cid :=
+(* the graph a template block addresses under a solution; None = the graph
+   name is an unbound variable: "continue" *)
+Definition m_target (dg : cid) (mu : sol) (g : option gterm) : option cid :=
   match g with
   | None => Some dg
   | Some (TGConst c) => Some c
-  | Some (TGVar v) =>
-      match lookup v mu with
-      | Some t => Some (cid_of_term t)
-      | None => if ins then Some FRESHG else None
-      end
+  | Some (TGVar v) => match lookup v mu with Some t => Some (cid_of_term t) | None => None end
   end.
 
-Definition m_quads (ins : bool) (k i : N) (dg : cid) (tm : tmpl) (mu : sol) : list quad :=
-  flat_map (fun jb => match m_target ins dg mu (fst (snd jb)) with
-                      | Some c => map (fun t => (t, c)) (fill (fresh k i (fst jb)) mu (snd (snd jb)))
-                      | None => []
-                      end)
-           (enum_from 0 (blocks tm)).
+(* the quads one solution deletes (ins = false) or inserts (ins = true) *)
+Definition m_quads (e : env) (ins : bool) (k i : N) (dg : cid) (tm : tmpl) (mu : sol) : list quad :=
+  flat_map (fun b => match m_target dg mu (fst b) with
+                     | Some c =>
+                         let ts := fill (fresh k i) mu (snd b) in
+                         map (fun t => (t, c)) (if ins then filter (legal e) ts else ts)
+                     | None => []
+                     end)
+           (blocks tm).
 
-Definition m_all (ins : bool) (k : N) (dg : cid) (tm : option tmpl) (omega : list sol) : list quad :=
+Definition m_all (e : env) (ins : bool) (k : N) (dg : cid) (tm : option tmpl) (omega : list sol) : list quad :=
   match tm with
   | None => []
-  | Some t => flat_map (fun im => m_quads ins k (fst im) dg t (snd im)) (enum_from 0 omega)
+  | Some t => flat_map (fun im => m_quads e ins k (fst im) dg t (snd im)) (enum_from 0 omega)
   end.
 
 Definition del_quads (l : list quad) (s : dstate) : dstate :=
-  fold_left (fun s q => del1 (GCtx (snd q)) (fst q) s) l s.
+  fold_left (fun s q => del1 (snd q) (fst q) s) l s.
 Definition add_quads (l : list quad) (s : dstate) : dstate :=
   fold_left (fun s q => add_quad q s) l s.
 
@@ -245,17 +189,17 @@ Definition add_quads (l : list quad) (s : dstate) : dstate :=
 Definition add_blocks (qs : list (cid * list triple)) (s : dstate) : dstate :=
   fold_left (fun s b => add_triples (fst b) (snd b) s) qs s.
 Definition sub_blocks (qs : list (cid * list triple)) (s : dstate) : dstate :=
-  fold_left (fun s b => g_isub (GCtx (fst b)) (snd b) s) qs s.
+  fold_left (fun s b => g_isub (fst b) (snd b) s) qs s.
 
 Definition is_nil {A} (l : list A) : bool := match l with [] => true | _ => false end.
 
 Definition evalInsertData (e : env) ts qs (s : dstate) : res :=
-  bind (g_iadd e (ctx_graph e) ts s) (fun s1 =>
-    if is_nil qs then Ok s1
-    else if has_dataset e then Ok (add_blocks qs s1) else Raise s1).
+  let s1 := add_triples (dflt e) ts s in
+  if is_nil qs then Ok s1
+  else if has_dataset e then Ok (add_blocks qs s1) else Raise s1.
 
 Definition evalDeleteData (e : env) ts qs (s : dstate) : res :=
-  let s1 := g_isub (ctx_graph e) ts s in
+  let s1 := g_isub (dflt e) ts s in
   if is_nil qs then Ok s1
   else if has_dataset e then Ok (sub_blocks qs s1) else Raise s1.
 
@@ -265,109 +209,114 @@ Definition has_gvar (tm : tmpl) : bool :=
 (* per solution: g -= fill(triples); for each GRAPH block cg -= fill(block) *)
 Definition dw_one (e : env) (k : N) (tm : tmpl) (s : dstate) (im : N * sol) : dstate :=
   let mu := snd im in
-  let s1 := g_isub (ctx_graph e) (fill (fresh k (fst im) 0) mu (t_triples tm)) s in
-  fold_left (fun s jb => match m_target false 0 mu (Some (fst (snd jb))) with
-                         | Some c => g_isub (GCtx c) (fill (fresh k (fst im) (fst jb)) mu (snd (snd jb))) s
-                         | None => s
-                         end)
-            (enum_from 1 (t_quads tm)) s1.
+  let s1 := g_isub (dflt e) (fill (fresh k (fst im)) mu (t_triples tm)) s in
+  fold_left (fun s b => match m_target 0 mu (Some (fst b)) with
+                        | Some c => g_isub c (fill (fresh k (fst im)) mu (snd b)) s
+                        | None => s
+                        end)
+            (t_quads tm) s1.
 
 Definition evalDeleteWhere (e : env) (k : N) (tm : tmpl) (omega : list sol) (s : dstate) : res :=
   if negb (is_nil (t_quads tm)) && negb (has_dataset e) then Raise s
   else
     (* a GRAPH block named by a variable is matched against
-       get_context(Variable), an empty graph: the join has no solutions *)
+       get_context(Variable), an empty graph: the join has no solutions (F10f) *)
     let om := if has_gvar tm then [] else omega in
     Ok (fold_left (dw_one e k tm) (enum_from 0 om) s).
 
 Definition tm_has_quads (tm : option tmpl) : bool :=
   match tm with Some t => negb (is_nil (t_quads t)) | None => false end.
 
+(* through a plain Graph a GRAPH block whose name is bound makes ctx.dataset
+   raise, after the triples outside GRAPH of that solution have been processed *)
+Fixpoint nd_loop (f : N -> sol -> dstate -> dstate) (blocked : sol -> bool)
+         (l : list (N * sol)) (s : dstate) : res :=
+  match l with
+  | [] => Ok s
+  | im :: r => let s1 := f (fst im) (snd im) s in
+               if blocked (snd im) then Raise s1 else nd_loop f blocked r s1
+  end.
+
+Definition nd_blocked (tm : tmpl) (mu : sol) : bool :=
+  existsb (fun b => match m_target 0 mu (Some (fst b)) with Some _ => true | None => false end) (t_quads tm).
+
+Definition nd_modify (e : env) (k : N) (dg : cid) (del ins : option tmpl) (omega : list sol) (s : dstate) : res :=
+  let l := enum_from 0 omega in
+  bind (match del with
+        | Some d => nd_loop (fun i mu s => g_isub dg (fill (fresh k i) mu (t_triples d)) s) (nd_blocked d) l s
+        | None => Ok s
+        end)
+       (fun s1 => match ins with
+                  | Some t => nd_loop (fun i mu s => add_triples dg (filter (legal e) (fill (fresh k i) mu (t_triples t))) s)
+                                      (nd_blocked t) l s1
+                  | None => Ok s1
+                  end).
+
 Definition evalModify (e : env) (k : N) (w : option cid) (ud : bool)
            (del ins : option tmpl) (omega : list sol) (s : dstate) : res :=
   if negb (has_dataset e) then
     if ud then Raise s                     (* ctx.load needs the dataset *)
-    else match w with Some _ => Raise s    (* WITH needs the dataset *)
-    | None =>
-      let dg := match ctx_graph e with GCtx c => c | GSelf => 0 end in
-      match omega with
-      | [] => Ok s
-      | mu :: _ =>
-        if tm_has_quads del then
-          (* first solution: dg -= triples, then ctx.dataset raises *)
-          match del with
-          | Some d => Raise (g_isub (GCtx dg) (fill (fresh k 0 0) mu (t_triples d)) s)
-          | None => Raise s
-          end
-        else
-          let s1 := del_quads (m_all false k dg del omega) s in
-          if tm_has_quads ins then
-            match ins with
-            | Some t => Raise (add_triples dg (fill (fresh k 0 0) mu (t_triples t)) s1)
-            | None => Raise s1
-            end
-          else Ok (add_quads (m_all true k dg ins omega) s1)
-      end
-    end
+    else match w with
+         | Some _ => Raise s               (* WITH needs the dataset *)
+         | None =>
+             if tm_has_quads del || tm_has_quads ins then nd_modify e k (dflt e) del ins omega s
+             else Ok (add_quads (m_all e true k (dflt e) ins omega)
+                                (del_quads (m_all e false k (dflt e) del omega) s))
+         end
   else
-    let dg := match w with
-              | Some c => c
-              | None => match ctx_graph e with GCtx c => c | GSelf => 0 end
-              end in
-    Ok (add_quads (m_all true k dg ins omega) (del_quads (m_all false k dg del omega) s)).
+    (* dg = ctx.graph if type(ctx.graph) is Graph else default_context; WITH
+       pushes its graph also when USING / USING NAMED is present *)
+    let dg := match w with Some c => c | None => dflt e end in
+    Ok (add_quads (m_all e true k dg ins omega) (del_quads (m_all e false k dg del omega) s)).
 
 (* _graphAll; None = ctx.dataset raised *)
-Definition graph_all (e : env) (g : gspec) (s : dstate) : option (list gref) :=
+Definition graph_all (e : env) (g : gspec) (s : dstate) : option (list cid) :=
   match g with
-  | GDefault => Some [ctx_graph e]
+  | GDefault => Some [dflt e]
   | GNamed =>
-      if has_dataset e then
-        Some (map GCtx (filter (fun c => negb (same_ident e (GCtx c) (ctx_graph e))) (contexts e s)))
-      else None
-  | GAll => if has_dataset e then Some (map GCtx (contexts e s)) else None
-  | GIri c => if has_dataset e then Some [GCtx c] else None
+      if has_dataset e then Some (filter (fun c => negb (N.eqb c 0)) (contexts e s)) else None
+  | GAll => if has_dataset e then Some (contexts e s) else None
+  | GIri c => if has_dataset e then Some [c] else None
   end.
 
 Definition evalClear (e : env) (g : gspec) (s : dstate) : res :=
   match graph_all e g s with
-  | Some gs => Ok (fold_left (fun s g => g_clear g s) gs s)
+  | Some gs => Ok (fold_left (fun s c => g_clear c s) gs s)
   | None => Raise s
   end.
 
+(* Memory is graph_aware; a plain Graph has no dataset: evalClear *)
 Definition evalDrop (e : env) (g : gspec) (s : dstate) : res :=
   if has_dataset e then
     match graph_all e g s with
-    | Some gs => Ok (fold_left (fun s g => remove_graph e g s) gs s)
+    | Some gs => Ok (fold_left (fun s c => remove_graph c s) gs s)
     | None => Raise s
     end
-  else Raise s.
+  else evalClear e g s.
 
 (* _graphOrDefault *)
-Definition graph_or_default (e : env) (g : gd) : option gref :=
+Definition graph_or_default (e : env) (g : gd) : option cid :=
   match g with
-  | DDefault => Some (ctx_graph e)
-  | DIri c => if has_dataset e then Some (GCtx c) else None
+  | DDefault => Some (dflt e)
+  | DIri c => if has_dataset e then Some c else None
   end.
 
 Definition evalAdd (e : env) (src dst : gd) (s : dstate) : res :=
   match graph_or_default e src, graph_or_default e dst with
-  | Some sg, Some dg =>
-      if same_ident e sg dg then Ok s else g_iadd_from e dg sg s
+  | Some sg, Some dg => if N.eqb sg dg then Ok s else Ok (g_iadd_from dg sg s)
   | _, _ => Raise s
   end.
 
 Definition evalCopy (e : env) (src dst : gd) (s : dstate) : res :=
   match graph_or_default e src, graph_or_default e dst with
-  | Some sg, Some dg =>
-      if same_ident e sg dg then Ok s else g_iadd_from e dg sg (g_clear dg s)
+  | Some sg, Some dg => if N.eqb sg dg then Ok s else Ok (g_iadd_from dg sg (g_clear dg s))
   | _, _ => Raise s
   end.
 
 Definition evalMove (e : env) (src dst : gd) (s : dstate) : res :=
   match graph_or_default e src, graph_or_default e dst with
   | Some sg, Some dg =>
-      if same_ident e sg dg then Ok s
-      else bind (g_iadd_from e dg sg (g_clear dg s)) (fun s1 => Ok (remove_graph e sg s1))
+      if N.eqb sg dg then Ok s else Ok (remove_graph sg (g_iadd_from dg sg (g_clear dg s)))
   | _, _ => Raise s
   end.
 
@@ -395,18 +344,23 @@ Fixpoint eval_from (e : env) (k : N) (ops : list uop) (s : dstate) : res :=
   end.
 
 (* ------------------------------------------------------------------ *)
-(* The historical evalModify loop (before the fix of F5): per solution,
-   delete then insert.  Kept for the refutation witness only.           *)
+(* Historical definitions, kept for refutation witnesses only           *)
 
-Definition modify_prefix_one (k : N) (dg : cid) (del ins : option tmpl)
+(* evalModify before the fix of F5: per solution, delete then insert *)
+Definition modify_prefix_one (e : env) (k : N) (dg : cid) (del ins : option tmpl)
            (s : dstate) (im : N * sol) : dstate :=
-  let d := match del with Some t => m_quads false k (fst im) dg t (snd im) | None => [] end in
-  let i := match ins with Some t => m_quads true k (fst im) dg t (snd im) | None => [] end in
+  let d := match del with Some t => m_quads e false k (fst im) dg t (snd im) | None => [] end in
+  let i := match ins with Some t => m_quads e true k (fst im) dg t (snd im) | None => [] end in
   add_quads i (del_quads d s).
 
-Definition evalModify_prefix (k : N) (dg : cid) (del ins : option tmpl)
+Definition evalModify_prefix (e : env) (k : N) (dg : cid) (del ins : option tmpl)
            (omega : list sol) (s : dstate) : dstate :=
-  fold_left (modify_prefix_one k dg del ins) (enum_from 0 omega) s.
+  fold_left (modify_prefix_one e k dg del ins) (enum_from 0 omega) s.
+
+(* DELETE DATA of a triple outside GRAPH before the fix of F10a, switch on:
+   ConjunctiveGraph.remove(triple) addresses every context *)
+Definition deldata_prefix_union (ts : list triple) (s : dstate) : dstate :=
+  fold_left (fun s t => {| quads := q_remove (pat_of t) None (quads s); known := known s |}) ts s.
 
 (* ------------------------------------------------------------------ *)
 (* Specification: SPARQL 1.1 Update section 3 as transformers of the quad
@@ -418,29 +372,11 @@ Definition graph_of (c : cid) (a : qset) : list triple := map fst (filter (in_gr
 Definition drop_graph (c : cid) (a : qset) : qset := filter (fun q => negb (in_graph c q)) a.
 Definition to_graph (c : cid) (ts : list triple) : qset := map (fun t => (t, c)) ts.
 
-(* the default graph of the Graph Store the front end exposes *)
-Definition dflt (e : env) : cid := match e_fe e with FGraph k => k | _ => 0 end.
+(* [dflt e] is the default graph of the Graph Store the front end exposes;
+   [legal] the RDF well-formedness of a triple; both defined above *)
 
-Definition is_lit (e : env) (t : term) : bool := memb N.eqb t (e_lits e).
-Definition is_bn (e : env) (t : term) : bool := memb N.eqb t (e_bnodes e) || (FRESH <=? t).
-Definition legal (e : env) (t : triple) : bool :=
-  let '(s, p, _) := t in
-  negb (is_lit e s) && negb (is_lit e p) && negb (is_bn e p).
-
-(* one fresh node per (operation, solution, label): the label's name in the
-   first block that mentions it *)
-Definition pos_label (p : tpos) (x : N) : bool :=
-  match p with PBnode y => N.eqb x y | _ => false end.
-Definition tpat_label (tp : tpat) (x : N) : bool :=
-  let '(a, b, c) := tp in pos_label a x || pos_label b x || pos_label c x.
-Definition block_has (x : N) (b : option gterm * list tpat) : bool :=
-  existsb (fun tp => tpat_label tp x) (snd b).
-Definition first_block (tm : tmpl) (x : N) : N :=
-  match find (fun jb => block_has x (snd jb)) (enum_from 0 (blocks tm)) with
-  | Some jb => fst jb
-  | None => 0
-  end.
-Definition sfresh (k i : N) (tm : tmpl) (x : N) : term := fresh k i (first_block tm x) x.
+(* one fresh node per (operation, solution, label) *)
+Definition sfresh (k i : N) (x : N) : term := fresh k i x.
 
 (* quads a template denotes under one solution; [skip] = drop illegal triples
    (insertions); unbound variables and unbound graph names always drop *)
@@ -455,7 +391,7 @@ Definition s_quads (e : env) (skip : bool) (k i : N) (dg : cid) (tm : tmpl) (mu 
   flat_map (fun b =>
               match s_target dg mu (fst b) with
               | Some c => to_graph c (filter (fun t => negb skip || legal e t)
-                                             (fill (sfresh k i tm) mu (snd b)))
+                                             (fill (sfresh k i) mu (snd b)))
               | None => []
               end)
            (blocks tm).
@@ -583,91 +519,13 @@ Definition iso_eqb (a b : qset) : bool :=
   else false.
 
 (* ------------------------------------------------------------------ *)
-(* Known-finding triggers                                               *)
+(* Known-finding trigger                                                *)
 
-Definition self_mode (e : env) : bool := has_dataset e && e_union e.
-Definition is_ds (e : env) : bool := match e_fe e with FDS => true | _ => false end.
-
-Definition labels_of (ts : list tpat) : list N :=
-  flat_map (fun tp => let '(a, b, c) := tp in
-              flat_map (fun p => match p with PBnode x => [x] | _ => [] end) [a; b; c]) ts.
-
-(* F10d: a label used in two different blocks of one template *)
-Definition shared_label (tm : tmpl) : bool :=
-  existsb (fun jb =>
-             existsb (fun x => negb (N.eqb (first_block tm x) (fst jb))) (labels_of (snd (snd jb))))
-          (enum_from 0 (blocks tm)).
-
-(* F10c: some instantiated insertion is not a legal RDF triple *)
-Definition illegal_insert (e : env) (k : N) (tm : tmpl) (omega : list sol) : bool :=
-  existsb (fun im => negb (forallb (fun q => legal e (fst q)) (m_quads true k (fst im) 0 tm (snd im))))
-          (enum_from 0 omega).
-
-(* F10e: a GRAPH ?g block with ?g unbound that still produces triples *)
-Definition unbound_graph (k : N) (tm : tmpl) (omega : list sol) : bool :=
-  existsb (fun im =>
-     existsb (fun jb => match fst (snd jb) with
-                        | Some (TGVar v) =>
-                            match lookup v (snd im) with
-                            | None => negb (is_nil (fill (fresh k (fst im) (fst jb)) (snd im) (snd (snd jb))))
-                            | Some _ => false
-                            end
-                        | _ => false
-                        end)
-             (enum_from 0 (blocks tm)))
-    (enum_from 0 omega).
-
-(* F10h: evalDeleteWhere consumes evalBGP(ctx, u.triples) lazily while it
-   deletes; with two or more triple patterns outside GRAPH and two or more
-   solutions the pattern is no longer matched against the state before the
-   operation (the model, which takes the solution list of that state, is not
-   faithful in this region) *)
-Definition lazy_region (tm : tmpl) (om : list sol) : bool :=
-  match t_triples tm, om with
-  | _ :: _ :: _, _ :: _ :: _ => true
-  | _, _ => false
-  end.
-
-Definition opt_tm (f : tmpl -> bool) (t : option tmpl) : bool :=
-  match t with Some x => f x | None => false end.
-
+(* F10f: DELETE WHERE { GRAPH ?g {...} } deletes nothing *)
 Definition op_kf (e : env) (k : N) (o : uop) : N :=
   match o with
-  | InsertData ts _ => if self_mode e && is_ds e && negb (is_nil ts) then 2 else 0
-  | DeleteData ts _ => if self_mode e && negb (is_nil ts) then 1 else 0
-  | DeleteWhere tm om =>
-      if has_gvar tm && negb (is_nil om) then 6
-      else if self_mode e && negb (is_nil (t_triples tm)) && negb (is_nil om) then 1
-      else if lazy_region tm om then 8 else 0
-  | Modify _ _ _ d i om =>
-      if opt_tm (fun t => illegal_insert e k t om) i then 3
-      else if opt_tm (fun t => shared_label t && negb (is_nil om)) i then 4
-      else if opt_tm (fun t => unbound_graph k t om) i then 5
-      else 0
-  | Clear _ g =>
-      if self_mode e then
-        match g with GDefault => 1 | GNamed => if is_ds e then 2 else 0 | _ => 0 end
-      else 0
-  | Drop _ g =>
-      if negb (has_dataset e) then match g with GDefault => 7 | _ => 0 end
-      else if self_mode e && is_ds e then
-        match g with GDefault | GNamed => 2 | _ => 0 end
-      else 0
-  | Add _ a b =>
-      if self_mode e then
-        match a, b with
-        | DDefault, DIri _ => if is_ds e then 2 else 1
-        | DIri _, DDefault => if is_ds e then 2 else 0
-        | _, _ => 0
-        end
-      else 0
-  | Move _ a b | Copy _ a b =>
-      if self_mode e then
-        match a, b with
-        | DDefault, DIri _ | DIri _, DDefault => if is_ds e then 2 else 1
-        | _, _ => 0
-        end
-      else 0
+  | DeleteWhere tm om => if has_gvar tm && negb (is_nil om) then 1 else 0
+  | _ => 0
   end.
 
 Fixpoint kf_from (e : env) (k : N) (ops : list uop) : N :=
